@@ -36,6 +36,7 @@ type visInfo struct {
 	ksort string
 	dom   func(st *State) Term
 	iter  types.Object // pseudo object holding the iteration counter (range over slice)
+	cnt   types.Object // pseudo object: number of completed iterations (range over map)
 }
 
 // Exec verifies one function.
@@ -79,6 +80,12 @@ type Exec struct {
 	callArgs []Term
 	callRecv Term
 	lastGiven map[string][]designator
+	memoBusy int
+	memoN    map[string]int
+	pendingAssert string
+	keepVar map[types.Object]bool // function-level locals mentioned in ensures clauses: kept across merges
+	calledObj map[string]types.Object   // callee name -> ghost "has been called" flag
+	lastRetObj map[string][]types.Object // callee name -> ghost copies of the results of the last call
 }
 
 func (e *Exec) fr() *frame { return e.frames[len(e.frames)-1] }
@@ -252,6 +259,48 @@ func (e *Exec) safe(st *State, kind string, node ast.Node, cond Term) {
 }
 
 func (e *Exec) fnName() string { return e.Fn.FullName() }
+
+// memoPred evaluates the memo predicate (a ghost method with a single return) for object ref in st.
+func (e *Exec) memoPred(st *State, pred *FuncInfo, ref Term) Term {
+	e.memoBusy++
+	e.spec++
+	defer func() { e.spec--; e.memoBusy-- }()
+	f := e.pushFrame(pred, pred.Pkg.TypesInfo)
+	defer e.popFrame()
+	sub := st.Clone()
+	e.bindSignature(sub, f, pred.Decl, pred.Decl.Type, ref, nil)
+	ret, ok := pred.Decl.Body.List[0].(*ast.ReturnStmt)
+	if !ok || len(ret.Results) != 1 {
+		e.unsupported(pred.Decl.Pos(), "memo predicate must be a single return")
+		return True
+	}
+	return e.eval(sub, ret.Results[0])
+}
+
+// havocMemo: memo cells may be filled by any callee (they are outside every frame condition).
+func (e *Exec) havocMemo(st *State) {
+	var ks []string
+	for k := range e.P.Memo {
+		ks = append(ks, k)
+	}
+	sortStrings(ks)
+	for _, k := range ks {
+		if e.ensureKeySort(k) {
+			st.Heap[k] = e.Ctx.Fresh("memoh", e.keySort[k])
+		}
+	}
+}
+
+// memoWritten: every write of a memo cell must respect its predicate.
+func (e *Exec) memoWritten(st *State, key string, pred *FuncInfo, ref Term) {
+	t := e.memoPred(st, pred, ref)
+	if e.memoN == nil {
+		e.memoN = map[string]int{}
+	}
+	lbl := frameLabel(key)
+	e.memoN[lbl]++
+	e.Ctx.AddObligation(e.Fn.FullName(), "memo", fmt.Sprintf("%s/memo/%s#%d", e.fnName(), lbl, e.memoN[lbl]), st.PC, t, e.pos(e.curStmtPos))
+}
 
 // ---------------------------------------------------------------------------------------------
 // integer arithmetic
@@ -698,6 +747,13 @@ func (e *Exec) evalBinary(st *State, x *ast.BinaryExpr) Term {
 	switch x.Op {
 	case token.LAND, token.LOR:
 		a := e.eval(st, x.X)
+		if e.spec > 0 {
+			b := e.eval(st, x.Y)
+			if x.Op == token.LAND {
+				return And(a, b)
+			}
+			return Or(a, b)
+		}
 		if !e.hasEffects(x.Y) {
 			// evaluate the right operand under the guard so that its safety obligations are conditional
 			guard := a
@@ -759,7 +815,7 @@ func (e *Exec) evalBinary(st *State, x *ast.BinaryExpr) Term {
 	a := e.eval(st, x.X)
 	b := e.eval(st, x.Y)
 	// mixed interface / concrete comparison
-	if x.Op == token.EQL || x.Op == token.NEQ {
+	if (x.Op == token.EQL || x.Op == token.NEQ) && !isRawGhost(x.X) && !isRawGhost(x.Y) {
 		if isInterface(tx) && !isInterface(ty) {
 			b = e.convertTo(st, b, ty, tx)
 		} else if isInterface(ty) && !isInterface(tx) {
@@ -832,6 +888,19 @@ func (e *Exec) evalBinary(st *State, x *ast.BinaryExpr) Term {
 	}
 	e.unsupported(x.Pos(), "binary %s", x.Op)
 	return Int(0)
+}
+
+// isRawGhost: ghost builtins typed `any` whose value is the raw term (no interface boxing).
+func isRawGhost(x ast.Expr) bool {
+	if p, ok := x.(*ast.ParenExpr); ok {
+		return isRawGhost(p.X)
+	}
+	c, ok := x.(*ast.CallExpr)
+	if !ok {
+		return false
+	}
+	id, ok := c.Fun.(*ast.Ident)
+	return ok && (id.Name == "__arg" || id.Name == "__lastret" || id.Name == "__recv")
 }
 
 // hasEffects reports whether evaluating x may change the state (calls other than pure accessors).
